@@ -181,28 +181,28 @@ def real_seq_tr(impl, code, s, io, is_, ts, moltype="dna", via_rc=False):
 COLL_KINDS = ["old.SequenceCollection", "old.ArrayAlignment", "old.Alignment", "new.SequenceCollection", "app.translate_seqs"]
 
 
-def real_coll_tr(kind, code, seqs, io, is_, ts):
+def real_coll_tr(kind, code, seqs, io, is_, ts, moltype="dna"):
     def run():
         import cogent3
 
-        d = {f"s{i}": s for i, s in enumerate(seqs)}
+        d = {f"s{i}": (s.replace("T", "U") if moltype == "rna" else s) for i, s in enumerate(seqs)}
         if kind == "old.SequenceCollection":
-            o = cogent3.make_unaligned_seqs(d, moltype="dna")
+            o = cogent3.make_unaligned_seqs(d, moltype=moltype)
             r = o.get_translation(gc=code, incomplete_ok=io, include_stop=is_, trim_stop=ts)
         elif kind == "old.ArrayAlignment":
-            o = cogent3.make_aligned_seqs(d, moltype="dna", array_align=True)
+            o = cogent3.make_aligned_seqs(d, moltype=moltype, array_align=True)
             r = o.get_translation(gc=code, incomplete_ok=io, include_stop=is_, trim_stop=ts)
         elif kind == "old.Alignment":
-            o = cogent3.make_aligned_seqs(d, moltype="dna", array_align=False)
+            o = cogent3.make_aligned_seqs(d, moltype=moltype, array_align=False)
             r = o.get_translation(gc=code, incomplete_ok=io, include_stop=is_, trim_stop=ts)
         elif kind == "new.SequenceCollection":
             from cogent3.core import new_alignment
 
-            o = new_alignment.make_unaligned_seqs(d, moltype="dna")
+            o = new_alignment.make_unaligned_seqs(d, moltype=moltype)
             r = o.get_translation(gc=code, incomplete_ok=io, include_stop=is_, trim_stop=ts)
         elif kind == "app.translate_seqs":
-            app = cogent3.get_app("translate_seqs", moltype="dna", gc=code, trim_terminal_stop=ts)
-            r = app.main(cogent3.make_unaligned_seqs(d, moltype="dna"))
+            app = cogent3.get_app("translate_seqs", moltype=moltype, gc=code, trim_terminal_stop=ts)
+            r = app.main(cogent3.make_unaligned_seqs(d, moltype=moltype))
         else:
             raise ValueError(kind)
         rd = r.to_dict()
@@ -631,8 +631,9 @@ def check_case(case):
         io, is_, ts = case["incomplete_ok"], case["include_stop"], case["trim_stop"]
         cs = cs_old[code] if not ep.startswith("new") else cs_new[code]
         wants = [o_get_translation(cs, s, io, is_, ts, strict_length=False) for s in seqs]
-        got = real_coll_tr(ep, code, seqs, io, is_, ts)
-        return _judge_tr(ep, case, cs, seqs, wants, got)
+        mt = case.get("moltype", "dna")
+        got = real_coll_tr(ep, code, seqs, io, is_, ts, mt)
+        return _judge_tr(ep if mt == "dna" else f"{ep}[{mt}]", case, cs, seqs, wants, got)
     if k == "app.translate_frames":
         from cogent3.app.translate import translate_frames
 
@@ -691,6 +692,10 @@ def check_case(case):
         if r != "".join(sorted(st)):
             return dict(what=f"{mtname}: resolving the code of {st!r} does not give the set back", expected=st, got=r, sig=f"resolve-after-what:{mtname}")
         return None
+    from . import c12_extra
+
+    if k in c12_extra.CHECKERS:
+        return c12_extra.CHECKERS[k](case, _tables())
     raise ValueError(f"unknown case kind {k}")
 
 
@@ -708,7 +713,9 @@ def _judge_tr(ep, case, cs, seqs, wants, got):
             return None  # empty sequences / empty translations: construction and codon look-up errors on the
             # empty string are outside the property
         cls = "raises:" + got["err"]
-        if aligned and got["err"] == "AlphabetError" and not ts and not io and any(len(s) % 3 for s in seqs) and not rejected:
+        if aligned and "[rna]" in ep and ts and not is_ and got["err"] == "ValueError" and any(o_translate(cs, s).endswith("*") and len(s) % 3 == 0 for s in seqs):
+            cls = "rna-terminal-stop-not-trimmed"  # rows of unequal length: only some stops were trimmed (at sequence level)
+        elif aligned and got["err"] == "AlphabetError" and not ts and not io and any(len(s) % 3 for s in seqs) and not rejected:
             cls = "length-rejected-although-trim_stop=False"
         want = wants
     else:
@@ -746,6 +753,9 @@ def _cases(ctx, rng, budget):
     old_ids = sorted(_code_seqs("old_codes"))
     both = [i for i in ids if i in old_ids]
     flags = list(itertools.product([False, True], repeat=3))
+    # regression corpus: witnesses of findings that were repaired upstream (status "fixed" suppresses nothing)
+    for w in _fixed_witnesses():
+        yield w
     for code in both:
         yield dict(kind="codes_agree", code=code)
     # exhaustive small part: every code, one sequence per length mod 3, all frames and strands
@@ -819,7 +829,8 @@ def _cases(ctx, rng, budget):
             if ep == "app.translate_seqs":
                 if io or is_:
                     continue
-            yield dict(kind="coll.get_translation", entry=ep, code=code, seqs=seqs, incomplete_ok=io, include_stop=is_, trim_stop=ts)
+            yield dict(kind="coll.get_translation", entry=ep, code=code, seqs=seqs, incomplete_ok=io, include_stop=is_, trim_stop=ts,
+                       moltype="rna" if rng.random() < 0.25 else "dna")
     # complement / ambiguity, all symbols of every moltype
     for mtname in ("olddna", "oldrna", "newdna", "newrna"):
         u = "U" if mtname.endswith("rna") else "T"
@@ -834,6 +845,20 @@ def _cases(ctx, rng, budget):
         for _ in range(15 * budget):
             s = "".join(rng.choice(base * 3 + "RYWSKMBDHVN-?") for _ in range(rng.randint(0, 30)))
             yield dict(kind="rc_involution", mt=mtname, s=s, level=rng.choice(["moltype", "seq"]))
+    from . import c12_extra
+
+    yield from c12_extra.cases(rng, budget, _tables())
+
+
+def _fixed_witnesses():
+    import json
+
+    from .common import VERIF
+
+    fp = VERIF / "known_findings.d" / "C12.json"
+    if not fp.exists():
+        return []
+    return [f["witness"] for f in json.loads(fp.read_text()).get("findings", []) if f.get("status") == "fixed" and "witness" in f]
 
 
 def spec_check(ctx, budget):
@@ -849,7 +874,8 @@ def spec_check(ctx, budget):
     per_sig = {}
     for case in _cases(ctx, rng, budget):
         out["evaluations"] += 1
-        ep = case.get("entry") or (f"{case.get('impl', '')}.{case['kind']}" if "impl" in case else f"{case.get('mt', '')}.{case['kind']}")
+        ep = (f"{case['entry']}.{case['kind'].split('.')[-1]}" if "entry" in case else f"{case['impl']}.{case['kind']}" if "impl" in case
+              else f"{case['mt']}.{case['kind']}" if "mt" in case else case["kind"])
         bump(out, "spec_entry_point", ep)
         if "s" in case and case["kind"].startswith("gc."):
             bump(out, "spec_len_mod_3", len(case["s"]) % 3)
@@ -859,7 +885,7 @@ def spec_check(ctx, budget):
             res = dict(what=f"check raised {type(e).__name__}: {e}", expected=None, got=None, sig=f"harness:{case['kind']}:{type(e).__name__}")
         key = tuple(sorted((k, str(v)) for k, v in case.items()))
         if res is None:
-            if any(case.get(k) for k in ("s", "seqs", "sym", "set")) or case["kind"] == "codes_agree":
+            if any(case.get(k) for k in ("s", "seqs", "sym", "set", "motif", "syms", "first", "via", "k")) or case["kind"] == "codes_agree":
                 out["nontrivial"].add(key)
             if len(out["samples"]) < 6 and case["kind"] in ("gc.sixframes", "coll.get_translation") and len(str(case)) < 300:
                 out["samples"].append(case)
